@@ -3,15 +3,18 @@ import glob
 import json
 import os
 import random
+import resource
 import shutil
 import subprocess
 import tempfile
 import time
+from concurrent.futures import ThreadPoolExecutor
 
 from . import common as C
 from . import pygen
 
 PID = "C06"
+JOBS = max(1, int(os.environ.get("PV_C06_JOBS", "4")))     # independent CLI invocations of the malformed stream in flight at a time
 CRASH_MARKS = ("panic:", "goroutine ", "fatal error", "SIGSEGV", "runtime error", "stack overflow")
 
 
@@ -21,6 +24,45 @@ def valid_module(rng, idx):
     src = pygen.render_module(fs, random.Random(rng.randrange(10 ** 6)), cosmetics=True, prelude=True)[0]
     src += "\nclass Holder%d:\n    dep: E0 = None\n\n    def get(self):\n        return self.x\n\n    def put(self, v):\n        self.x = v\n" % idx
     return src
+
+
+# ---- very deep but BALANCED nesting whose only defect is local to the innermost level -------------------------------------------------------------
+# (kind of nesting: opening text, closing text); every level is properly closed, so a syntax error in the innermost operand stays a small ERROR/MISSING
+# node at the bottom of the tree instead of turning the whole file into one top-level ERROR node
+NEST = {"list": ("[", "]"), "paren": ("(", ")"), "tuple": ("(0, ", ")"), "dict value": ("{0: ", "}"), "call argument": ("f(", ")"), "keyword argument": ("f(k=", ")"),
+        "operand": ("1 + (", ")"), "subscript": ("a[", "]"), "lambda body": ("(lambda: ", ")"), "conditional": ("(1 if a else ", ")")}
+DEFECTS = {"two atoms side by side": "1 2", "operator without operand": "1 +", "stray character": "1 $ 2", "leading comma": ", 1", "keyword out of place": "1 for"}
+WRAPS = {"return value": "def table(a, f):\n    return %s\n", "module-level assignment": "a = f = 0\nx = %s\n", "default argument": "def table(a, f, d=%s):\n    return d\n",
+         "statement inside 30 nested blocks": "a = f = 0\n" + "".join(" " * i + ("if a:\n", "while a:\n", "for i in a:\n")[i % 3] for i in range(30)) + " " * 30 + "x = %s\n"}
+TREE_LEVELS = {"list": 1, "paren": 1, "tuple": 1, "dict value": 2, "call argument": 2, "keyword argument": 3, "operand": 2, "subscript": 1, "lambda body": 2, "conditional": 2}
+# levels of nesting per kind: shallow, medium, just below and just above 1000 levels of the syntax tree (the recursion limit the code base uses in its tree utilities;
+# one nesting is 1 to 3 tree levels, see TREE_LEVELS), far above it. Where the defect really sits is measured (hist first_syntax_error_tree_depth).
+DEEP_DEPTHS = lambda kind: (30, 450, 975 // TREE_LEVELS[kind], 1040 // TREE_LEVELS[kind], 2600)
+
+
+def deep_expr(levels, inner):
+    return "".join(NEST[k][0] for k in levels) + inner + "".join(NEST[k][1] for k in reversed(levels))
+
+
+def deep_local_defects(rng):
+    """(label, bytes): balanced nesting of every kind x depth with ONE local defect in the innermost operand (kind x depth covered, defect and position in the
+    file rotated), the same nesting without the defect, and randomly mixed nestings of random depth"""
+    out = []
+    kinds, defects, wraps = list(NEST), list(DEFECTS), list(WRAPS)
+    for ki, kind in enumerate(kinds):
+        for di, depth in enumerate(DEEP_DEPTHS(kind)):
+            d, w = defects[(ki + di) % len(defects)], wraps[(ki + 2 * di + ki // 4) % len(wraps)]
+            out.append(("deep nesting, local defect: %s x%d, %s, %s" % (kind, depth, d, w), (WRAPS[w] % deep_expr([kind] * depth, DEFECTS[d])).encode()))
+        depth, w = (1100, 2600)[ki % 2], wraps[ki % len(wraps)]
+        out.append(("deep nesting, valid: %s x%d, %s" % (kind, depth, w), (WRAPS[w] % deep_expr([kind] * depth, "1")).encode()))
+    for _ in range(8):
+        depth = rng.randint(100, 3000)
+        run, levels = rng.choice([1, 1, 7, 60]), []
+        while len(levels) < depth:
+            levels += [rng.choice(kinds)] * run
+        d, w = rng.choice(defects), rng.choice(wraps)
+        out.append(("deep nesting, local defect: mixed kinds x%d, %s, %s" % (depth, d, w), (WRAPS[w] % deep_expr(levels[:depth], DEFECTS[d])).encode()))
+    return out
 
 
 def malformed_stream(rng, valid_sources, n):
@@ -81,6 +123,7 @@ def malformed_stream(rng, valid_sources, n):
                         lines += ind + hdr + "\n" + (filler.replace("        ", ind + "    ") if k == len(parts) - 1 else ind + "    y = 2\n")
                 lines += ind + "return 2\n" if wrap else "z = 3\n"
                 out.append(("%s body of `%s`%s" % (defect, second or first, " in def" if wrap else ""), lines.encode()))
+    out += deep_local_defects(rng)
     while len(out) < n:
         src = rng.choice(valid_sources).encode()
         kind = rng.choice(["truncate", "flip", "delete", "insert", "dup", "shuffle_lines", "random", "body_commented", "body_commented"])
@@ -218,14 +261,38 @@ def shape_run(files, root, timeout):
     return None
 
 
+def _limit_address_space():
+    resource.setrlimit(resource.RLIMIT_AS, (8 << 30, 8 << 30))
+
+
 def run_cli(args, cwd, timeout):
     t0 = time.time()
     try:
-        p = subprocess.run([os.path.join(C.BUILD, "pyscn")] + args, cwd=cwd, stdout=subprocess.PIPE, stderr=subprocess.PIPE, timeout=timeout,
-                           preexec_fn=lambda: __import__("resource").setrlimit(__import__("resource").RLIMIT_AS, (8 << 30, 8 << 30)))
+        p = subprocess.run([os.path.join(C.BUILD, "pyscn")] + args, cwd=cwd, stdout=subprocess.PIPE, stderr=subprocess.PIPE, timeout=timeout, preexec_fn=_limit_address_space)
         return p.returncode, p.stdout.decode("utf-8", "replace"), p.stderr.decode("utf-8", "replace"), time.time() - t0
     except subprocess.TimeoutExpired:
         return None, "", "", time.time() - t0
+
+
+def error_strings(report, needle):
+    """the strings that sit under a key named ...error.../...warning... of the JSON report and contain `needle`"""
+    found = set()
+
+    def errs(x, path):
+        if isinstance(x, dict):
+            for k, v in x.items():
+                errs(v, path + [k])
+        elif isinstance(x, list):
+            for v in x:
+                errs(v, path)
+        elif isinstance(x, str) and needle in x and any(("rror" in k or "arning" in k) for k in path):
+            found.add(x)
+    errs(report, [])
+    return found
+
+
+def stderr_lines(se, needle):
+    return {ln.strip() for ln in se.split("\n") if needle in ln}
 
 
 def per_file(d, fname_filter):
@@ -252,9 +319,11 @@ def run(tier, seed, replay=None):
     res.assumptions += [
         "PARTIAL: isolation and the exit-status logic are proved over the model and tied by fact tables; crash-freedom and the time bound are properties of the runtime (tree-sitter's C code, "
         "cgo, Go's stack and allocator, the algorithms' running time) that the model cannot exhibit — they are SEARCHED here with a malformed stream, not proved",
+        "'cannot be parsed' is judged by the tree-sitter Python grammar (the third-party grammar pyscn itself is built on), asked directly through the harness command `tsparse`, together with pyscn's own parser gate: "
+        "text that CPython rejects but this grammar accepts is not counted as unparseable",
         "time bound used by the search: 20 s + 40 microseconds per byte of input per run (a linear envelope far above the times measured on valid input of the same size), address space limited to 8 GiB",
     ]
-    nbad = 280 if tier == "quick" else 1200
+    nbad = (280 if tier == "quick" else 1200) + len(deep_local_defects(random.Random(0)))     # the deep-nesting family comes on top of the stream
     hist = {"alone_runs": 0, "mixed_runs": 0, "by_kind": {}, "exit0": 0, "exit1": 0, "max_seconds": 0.0, "slowest": "", "selection_format_runs": 0}
     nontrivial = set()
     tmp = tempfile.mkdtemp(prefix="pv_c06_")
@@ -278,6 +347,8 @@ def run(tier, seed, replay=None):
             res.violation("analyze failed on the reference project of valid files: %s" % err[-300:], {"files": good})
             return res.finish("other")
         ref_parts = per_file(ref, lambda p: True)
+        phase_t0 = time.time()
+        hist["phase_seconds"] = {"proofs and reference run": round(phase_t0 - res.t0, 1)}
         # ---- time bound proportional to the input size: t(4n) against 4 t(n) per input family (complexity analysis only: one parse + CFGs) -----------------
         fam = {
             "valid functions": lambda n: ("def f%d(a):\n    if a:\n        return 1\n    return 2\n\n" * 1).encode() * 0 + "".join("def f%d(a):\n    if a:\n        return 1\n    return 2\n\n" % i for i in range(n // 50)).encode(),
@@ -287,33 +358,87 @@ def run(tier, seed, replay=None):
             "random printable": lambda n: bytes(random.Random(n).choice(b"abcdef (){}[]:;,.=+-*/'\"\n\t#@") for _ in range(n)),
         }
         unit_js = b"function f(a){if(a){return a+1;}else{var b=a||0;for(var i=0;i<b;i++){g(i);}}}\n"
+        # one very WIDE statement: a single if/elif chain of N clauses in one function (generated dispatch code), against the same number of branches written as
+        # N separate `if` statements (same size in bytes). Sizes: 10 000 and 40 000 clauses (0.4 / 1.6 MB), where a cost per clause that grows with the length
+        # of the chain is no longer hidden by the start-up time.
+        fam["one if/elif chain in one function"] = lambda n: (b"def dispatch(a):\n    if a == 10000:\n        return 10000\n" + "".join(
+            "    elif a == %d:\n        return %d\n" % (i, i) for i in range(10001, 10000 + max(2, n // 41))).encode() + b"    else:\n        return -1\n")
+        fam["separate ifs in one function"] = lambda n: (b"def dispatch(a):\n" + "".join(
+            "    if a == %d:\n        return %d\n" % (i, i) for i in range(10000, 10000 + max(2, n // 39))).encode() + b"    return -1\n")
+        # the same idea for the other statements that hold an unbounded flat list of parts
+        fam["one try with N except clauses"] = lambda n: ("def f(a):\n    try:\n        a()\n" + "".join("    except E%d:\n        return %d\n" % (i, i) for i in range(10000, 10000 + max(2, n // 38)))).encode()
+        fam["one match with N cases"] = lambda n: ("def f(a):\n    match a:\n" + "".join("        case %d:\n            return %d\n" % (i, i) for i in range(10000, 10000 + max(2, n // 46)))).encode()
+        fam["one boolean expression with N operands"] = lambda n: ("def f(a):\n    return (" + " or\n        ".join("a == %d" % i for i in range(10000, 10000 + max(2, n // 22))) + ")\n").encode()
+        wide = ["one if/elif chain in one function", "separate ifs in one function", "one try with N except clauses", "one match with N cases", "one boolean expression with N operands"]
+        fam_sizes = {name: (410000, 1640000) for name in wide}
+        same_size_reference = {"one if/elif chain in one function": "separate ifs in one function"}
         hist["scaling"] = {}
+        hist["scaling_sizes"] = {}
+        hist["scaling_remeasured"] = []
+        raw_times = {}
+
+        def measure(name, n):
+            root = os.path.join(tmp, "scale")
+            shutil.rmtree(root, ignore_errors=True)
+            os.makedirs(os.path.join(root, "proj"))
+            data = fam[name](n)
+            with open(os.path.join(root, "proj", "big.py"), "wb") as f:
+                f.write(data)
+            rc, so, se, secs = run_cli(["analyze", "--json", "--no-open", "--select", "complexity", "proj"], root, 600)
+            shutil.rmtree(root, ignore_errors=True)
+            return len(data), (secs if rc is not None else 600.0)
+
+        # proportional would be x4; x8 leaves a factor 2 for noise and cache effects; below 3 s nothing is concluded
+        trips = lambda t_small, t_large: t_large > 3.0 and t_large > 8.0 * max(t_small, 0.05)
         for name, mk in fam.items():
-            times = []
-            for n in (150 * 1024, 600 * 1024):
-                root = os.path.join(tmp, "scale")
-                shutil.rmtree(root, ignore_errors=True)
-                os.makedirs(os.path.join(root, "proj"))
-                with open(os.path.join(root, "proj", "big.py"), "wb") as f:
-                    f.write(mk(n))
-                rc, so, se, secs = run_cli(["analyze", "--json", "--no-open", "--select", "complexity", "proj"], root, 600)
-                times.append(secs if rc is not None else 600.0)
-                shutil.rmtree(root, ignore_errors=True)
+            sizes = fam_sizes.get(name, (150 * 1024, 600 * 1024))
+            pairs = [measure(name, n) for n in sizes]
+            real, times = [p[0] for p in pairs], [p[1] for p in pairs]
+            sig = {"kind": "superlinear", "family": name}
+            k = C.classify(PID, sig)
+            if trips(*times) and not k:
+                # not a known finding: a load peak of the machine during one of the two runs must not count; both sizes are measured again, the smaller time counts
+                hist["scaling_remeasured"].append(name)
+                times = [min(t, measure(name, n)[1]) for t, n in zip(times, sizes)]
             hist["scaling"][name] = [round(t, 2) for t in times]
-            # proportional would be x4; x8 leaves a factor 2 for noise and cache effects; below 3 s nothing is concluded
-            if times[1] > 3.0 and times[1] > 8.0 * max(times[0], 0.05):
-                sig = {"kind": "superlinear", "family": name}
-                k = C.classify(PID, sig)
-                msg = "C06 time bound: %s: %.1f s for 150 KiB but %.1f s for 600 KiB (x%.1f for x4 input; `analyze --select complexity`)" % (name, times[0], times[1], times[1] / max(times[0], 0.05))
+            hist["scaling_sizes"][name] = real
+            raw_times[name] = times
+            kib = [r // 1024 for r in real]
+            if trips(*times):
+                msg = "C06 time bound: %s: %.1f s for %d KiB but %.1f s for %d KiB (x%.1f for x%.1f input; `analyze --select complexity`)" % (
+                    name, times[0], kib[0], times[1], kib[1], times[1] / max(times[0], 0.05), real[1] / max(real[0], 1))
                 if k:
                     res.known_finding(k, "(%s)" % msg)
                 else:
-                    res.violation(msg, {"signature": sig, "family": name, "sizes": [150 * 1024, 600 * 1024], "seconds": times, "head_hex": mk(400)[:200].hex()})
+                    res.violation(msg, {"signature": sig, "family": name, "sizes": real, "seconds": times, "head_hex": mk(400)[:200].hex()})
+        # the envelope calibrated on valid input of the same size class (DESIGN.md, C06 oracle): the same branches in the same number of bytes, written as one
+        # statement, must not cost a multiple of what they cost as N statements (x8 and 3 s: the same noise allowance as above, re-measured before it counts)
+        hist["same_size_ratio"] = {}
+        for name, refname in same_size_reference.items():
+            t, tr = raw_times[name][1], raw_times[refname][1]
+            sig = {"kind": "slower-than-same-size-input", "family": name, "reference": refname}
+            k = C.classify(PID, sig)
+            if trips(tr, t) and not k:
+                hist["scaling_remeasured"].append("%s / %s" % (name, refname))
+                if name not in hist["scaling_remeasured"]:         # (a family measured twice above is not measured a third time)
+                    t = min(t, measure(name, fam_sizes[name][1])[1])
+                if refname not in hist["scaling_remeasured"]:
+                    tr = min(tr, measure(refname, fam_sizes[refname][1])[1])
+            hist["same_size_ratio"]["%s / %s" % (name, refname)] = round(t / max(tr, 0.05), 2)
+            if trips(tr, t):
+                msg = "C06 time bound: %s: %.1f s for %d KiB, but %.1f s for valid input of the same size with the same branches (%s, %d KiB): x%.1f (`analyze --select complexity`)" % (
+                    name, t, hist["scaling_sizes"][name][1] // 1024, tr, refname, hist["scaling_sizes"][refname][1] // 1024, t / max(tr, 0.05))
+                if k:
+                    res.known_finding(k, "(%s)" % msg)
+                else:
+                    res.violation(msg, {"signature": sig, "family": name, "reference": refname, "sizes": hist["scaling_sizes"][name], "seconds": [raw_times[name][0], t], "reference_seconds": [raw_times[refname][0], tr],
+                                        "head_hex": fam[name](400)[:200].hex()})
+        hist["phase_seconds"]["scaling probes"] = round(time.time() - phase_t0, 1)
+        phase_t0 = time.time()
         # ---- valid Python of any shape: the clause x statement matrix (all analyses, incl. the import graph) ---------------------------------------
         cells = shape_matrix()
         hist["shape_cells"] = len(cells)
         # the matrix is analysed in 8 slices side by side (each slice is one project with all analyses); a failing slice is bisected below
-        from concurrent.futures import ThreadPoolExecutor
         allnames = sorted(cells)
         slices = [allnames[k::8] for k in range(8)]
         with ThreadPoolExecutor(8) as ex:
@@ -339,7 +464,13 @@ def run(tier, seed, replay=None):
                 res.violation(msg, {"signature": sig, "files": {n: cells[n] for n in names[:8]}})
         else:
             nontrivial.add("valid shape matrix")
-        # which of the inputs does pyscn's own parser reject? (asked in process; only inputs that are valid UTF-8 and small enough to go through the line protocol)
+        hist["phase_seconds"]["shape matrix"] = round(time.time() - phase_t0, 1)
+        phase_t0 = time.time()
+        # ---- which of the inputs cannot be parsed? Two independent answers, their union is used: --------------------------------------------------------
+        # (a) pyscn's own parser gate (parser.Parse, asked in process; only inputs that are valid UTF-8 and small enough to go through the line protocol);
+        # (b) the tree-sitter Python grammar asked DIRECTLY (harness command `tsparse`: a fresh tree-sitter parser, root.HasError(); nothing of pyscn's code on
+        #     the path) on the very bytes of every input — a gate that lets some syntax errors through cannot hide them from this one.
+        # A leading UTF-8 byte-order mark is not a syntax error in Python: for (b) such a file counts as unparseable only if it also is without the mark.
         unparseable = set()
         askable = []
         for bi, (label, data) in enumerate(bad):
@@ -354,20 +485,124 @@ def run(tier, seed, replay=None):
         except Exception:
             unparseable = set()
         hist["rejected_by_the_parser"] = len(unparseable)
-        hist["unparseable_and_reported"] = 0
+        ts_dir = os.path.join(tmp, "ts")
+        os.makedirs(ts_dir)
         for bi, (label, data) in enumerate(bad):
-            hist["by_kind"][label] = hist["by_kind"].get(label, 0) + 1
-            limit = 20.0 + 40e-6 * len(data)
-            info = {"kind": label, "size": len(data), "hex": data[:4096].hex(), "truncated_in_replay": len(data) > 4096}
-            # ---- alone ----------------------------------------------------------------------------------------------------------
+            with open(os.path.join(ts_dir, "%d.py" % bi), "wb") as f:
+                f.write(data[3:] if data.startswith(b"\xef\xbb\xbf") else data)
+        ts_ans = C.harness_batch("tsparse", [{"Path": os.path.join(ts_dir, "%d.py" % bi)} for bi in range(len(bad))], jobs=JOBS)
+        shutil.rmtree(ts_dir, ignore_errors=True)
+        ts_unparseable = {bi for bi, a in enumerate(ts_ans) if a.get("has_error") is True}
+        hist["rejected_by_tree_sitter_directly"] = len(ts_unparseable)
+        hist["tree_sitter_direct_no_answer"] = sum(1 for a in ts_ans if "has_error" not in a)
+        hist["rejected_only_by_pyscn_gate"] = len(unparseable - ts_unparseable)
+        hist["rejected_only_by_tree_sitter_directly_among_those_put_to_both"] = len((ts_unparseable & {bi for bi, _ in askable}) - unparseable)
+        depths = [a.get("error_depth", -1) for bi, a in enumerate(ts_ans) if bi in ts_unparseable]
+        hist["first_syntax_error_tree_depth"] = {"0-9": sum(1 for d in depths if 0 <= d < 10), "10-99": sum(1 for d in depths if 10 <= d < 100), "100-899": sum(1 for d in depths if 100 <= d < 900),
+                                                 "900-999": sum(1 for d in depths if 900 <= d < 1000), "1000-1099": sum(1 for d in depths if 1000 <= d < 1100),
+                                                 "1100-2999": sum(1 for d in depths if 1100 <= d < 3000), "3000+": sum(1 for d in depths if d >= 3000), "max": max(depths + [-1])}
+        hist["deep_nesting_inputs"] = {"local defect": sum(1 for l, _ in bad if l.startswith("deep nesting, local defect")), "valid": sum(1 for l, _ in bad if l.startswith("deep nesting, valid")),
+                                       "local defect rejected by tree-sitter directly": sum(1 for bi, (l, _) in enumerate(bad) if l.startswith("deep nesting, local defect") and bi in ts_unparseable),
+                                       "valid accepted by tree-sitter directly": sum(1 for bi, (l, _) in enumerate(bad) if l.startswith("deep nesting, valid") and bi not in ts_unparseable)}
+        unparseable |= ts_unparseable
+        hist["unparseable"] = len(unparseable)
+        hist["unparseable_and_reported"] = 0
+        hist["mixed_unparseable_and_reported"] = 0
+        hist["remeasured_alone_after_time_excess"] = 0
+
+        hist["phase_seconds"]["parseability oracles"] = round(time.time() - phase_t0, 1)
+        phase_t0 = time.time()
+        # ---- what pyscn says about a VALID file of the same name (control): a message that a valid file gets as well (today: the class metrics' "No classes found
+        # in file" warning) does not report that a file cannot be parsed, so it does not count as the report the property asks for
+        WHERES = ["aaa_bad.py", "good2_bad.py", "zzz_bad.py", "pkg/bad.py", "good1_bad.py"]
+        ctl = os.path.join(tmp, "ctl_a")
+        os.makedirs(os.path.join(ctl, "proj"))
+        open(os.path.join(ctl, "proj", "bad.py"), "w").write("x = 1\n")
+        rc, cj, cerr = C.pyscn_json(["proj"], ctl)
+        noise_alone = (error_strings(cj, "bad.py") if cj is not None else set()) | stderr_lines(cerr or "", "bad.py")
+        ctl = os.path.join(tmp, "ctl_m")
+        shutil.copytree(os.path.join(ref_root, "proj"), os.path.join(ctl, "proj"))
+        for w in WHERES:
+            open(os.path.join(ctl, "proj", w), "w").write("x = 1\n")
+        rc, cj, cerr = C.pyscn_json(["proj"], ctl)
+        noise_mixed = (error_strings(cj, "bad.py") if cj is not None else set()) | stderr_lines(cerr or "", "bad.py")
+        hist["messages_a_valid_file_of_the_same_name_gets_too"] = sorted(noise_alone | noise_mixed)[:12]
+        # ---- the plan (all random choices, drawn in stream order), the runs (independent CLI invocations, JOBS at a time), the verdicts (in stream order) ------
+        plan = []
+        for bi, (label, data) in enumerate(bad):
+            sel = rng.choice([[], [], ["--select", "complexity"], ["--select", "deadcode"], ["--select", "clones"], ["--select", "cbo,lcom"], ["--select", "deps"]])
+            fmt = rng.choice(["--json", "--json", "--yaml", "--csv", "--html", None])
+            where = None
+            if bi % (2 if tier == "quick" else 3) == 0 or " KB" in label:
+                where = rng.choice(WHERES[:4]) if " KB" not in label else WHERES[4]   # big files: always with successors
+            plan.append({"sel": sel, "fmt": fmt, "args": ["analyze", "--no-open"] + ([fmt] if fmt else []) + sel + ["proj"], "where": where, "limit": 20.0 + 40e-6 * len(data)})
+
+        def crash_lines(*texts):
+            return [ln for t in texts for ln in t.split("\n") if any(m in ln for m in CRASH_MARKS)][:2]
+
+        def one(bi):
+            """both runs of input bi; returns plain data, all bookkeeping happens in the caller"""
+            label, data = bad[bi]
+            pl = plan[bi]
+            limit = pl["limit"]
+            o = {"mixed": None}
             root = os.path.join(tmp, "a%d" % bi)
+            shutil.rmtree(root, ignore_errors=True)
             os.makedirs(os.path.join(root, "proj"))
             with open(os.path.join(root, "proj", "bad.py"), "wb") as f:
                 f.write(data)
-            sel = rng.choice([[], [], ["--select", "complexity"], ["--select", "deadcode"], ["--select", "clones"], ["--select", "cbo,lcom"], ["--select", "deps"]])
-            fmt = rng.choice(["--json", "--json", "--yaml", "--csv", "--html", None])
-            args = ["analyze", "--no-open"] + ([fmt] if fmt else []) + sel + ["proj"]
-            rc, so, se, secs = run_cli(args, root, limit + 60)
+            rc, so, se, secs = run_cli(pl["args"], root, limit + 60)
+            o.update(rc=rc, se=se, secs=secs, crash=crash_lines(se, so), mention=None)
+            o["time_excess"] = rc is None or secs > limit
+            alone_fails = rc is None or bool(o["crash"]) or rc not in (0, 1) or secs > limit
+            if not alone_fails and rc == 0:
+                mention = bool(stderr_lines(se, "bad.py") - noise_alone)
+                reps = glob.glob(os.path.join(root, ".pyscn", "reports", "*"))
+                if not mention and pl["fmt"] == "--json" and reps:
+                    try:
+                        mention = bool(error_strings(json.load(open(reps[0])), "bad.py") - noise_alone)
+                    except Exception:
+                        mention = True     # unreadable report: not this clause's business
+                elif not mention and pl["fmt"] != "--json":
+                    mention = True         # only the JSON report is searched for error lists
+                o["mention"] = mention
+            shutil.rmtree(root, ignore_errors=True)
+            if alone_fails or pl["where"] is None:
+                return o
+            root = os.path.join(tmp, "m%d" % bi)
+            shutil.rmtree(root, ignore_errors=True)
+            shutil.copytree(os.path.join(ref_root, "proj"), os.path.join(root, "proj"))
+            with open(os.path.join(root, "proj", pl["where"]), "wb") as f:
+                f.write(data)
+            rc, so, se, secs = run_cli(["analyze", "--json", "--no-open", "proj"], root, limit + 120)
+            m = {"rc": rc, "se": se, "secs": secs, "crash": any(mk in se for mk in CRASH_MARKS), "report": False, "parts": None, "mention": None}
+            if rc is None:
+                o["time_excess"] = True
+            got = glob.glob(os.path.join(root, ".pyscn", "reports", "*.json"))
+            if got and rc in (0, 1) and not m["crash"]:
+                m["report"] = True
+                d = json.load(open(got[0]))
+                m["parts"] = per_file(d, lambda p: not p.endswith("bad.py"))
+                m["mention"] = bool((stderr_lines(se, os.path.basename(pl["where"])) | error_strings(d, os.path.basename(pl["where"]))) - noise_mixed)
+            o["mixed"] = m
+            shutil.rmtree(root, ignore_errors=True)
+            return o
+
+        with ThreadPoolExecutor(JOBS) as ex:
+            outcomes = list(ex.map(one, range(len(bad))))
+        hist["phase_seconds"]["malformed stream, %d runs at a time" % JOBS] = round(time.time() - phase_t0, 1)
+        for bi, (label, data) in enumerate(bad):
+            hist["by_kind"][label] = hist["by_kind"].get(label, 0) + 1
+            pl, o = plan[bi], outcomes[bi]
+            if o["time_excess"]:
+                # measured while other runs were in flight: the time bound is judged on a second measurement with nothing else running
+                hist["remeasured_alone_after_time_excess"] += 1
+                o = one(bi)
+            limit, sel, fmt, args = pl["limit"], pl["sel"], pl["fmt"], pl["args"]
+            cap = 65536
+            info = {"kind": label, "size": len(data), "hex": data[:cap].hex(), "truncated_in_replay": len(data) > cap}
+            # ---- alone ----------------------------------------------------------------------------------------------------------
+            rc, se, secs = o["rc"], o["se"], o["secs"]
             hist["alone_runs"] += 1
             if sel or fmt != "--json":
                 hist["selection_format_runs"] += 1
@@ -376,8 +611,8 @@ def run(tier, seed, replay=None):
             sig = None
             if rc is None:
                 sig, what = {"kind": "hang", "input": label}, "does not terminate within %.0f s" % (limit + 60)
-            elif any(m in se or m in so for m in CRASH_MARKS):
-                sig, what = {"kind": "crash", "input": label}, "crashes: %s" % [ln for ln in (se + so).split("\n") if any(m in ln for m in CRASH_MARKS)][:2]
+            elif o["crash"]:
+                sig, what = {"kind": "crash", "input": label}, "crashes: %s" % o["crash"]
             elif rc not in (0, 1):
                 sig, what = {"kind": "exit-status", "input": label}, "exits with status %d" % rc
             elif secs > limit:
@@ -396,50 +631,31 @@ def run(tier, seed, replay=None):
             # ---- "a file that cannot be parsed is reported as an error or warning": whatever the selection, a run that ends with status 0 must name the
             # file in an error/warning of the report or on stderr
             if bi in unparseable and rc == 0:
-                mention = "bad.py" in se
-                reps = glob.glob(os.path.join(root, ".pyscn", "reports", "*"))
-                if not mention and fmt == "--json" and reps:
-                    try:
-                        def errs(x, path):
-                            if isinstance(x, dict):
-                                return any(errs(v, path + [k]) for k, v in x.items())
-                            if isinstance(x, list):
-                                return any(errs(v, path) for v in x)
-                            return isinstance(x, str) and "bad.py" in x and any(("rror" in k or "arning" in k) for k in path)
-                        mention = errs(json.load(open(reps[0])), [])
-                    except Exception:
-                        mention = True     # unreadable report: not this clause's business
-                elif not mention and fmt != "--json":
-                    mention = True         # only the JSON report is searched for error lists
-                if mention:
+                if o["mention"]:
                     hist["unparseable_and_reported"] += 1
                 else:
                     sig = {"kind": "unreported-bad-file", "select": (sel[1] if sel else "all")}
                     k = C.classify(PID, sig)
-                    msg = "C06: `pyscn %s` exits 0 on a file its parser rejects (kind `%s`) and reports it neither as an error nor as a warning (report and stderr do not name it)" % (" ".join(args), label)
+                    msg = "C06: `pyscn %s` exits 0 on a file that cannot be parsed (kind `%s`; rejected by %s) and reports it neither as an error nor as a warning (report and stderr do not name it)" % (
+                        " ".join(args), label, "the tree-sitter Python grammar asked directly" if bi in ts_unparseable else "its own parser")
                     if k:
                         res.known_finding(k, "(%s)" % msg[:250])
                     else:
-                        res.violation(msg, dict(info, signature=sig, args=args, stderr=se[-400:]))
+                        res.violation(msg, dict(info, signature=sig, args=args, stderr=se[-400:], tree_sitter=ts_ans[bi]))
             # ---- mixed into the project of valid files --------------------------------------------------------------------------------------
-            if bi % (2 if tier == "quick" else 3) == 0 or " KB" in label:
-                root = os.path.join(tmp, "m%d" % bi)
-                shutil.copytree(os.path.join(ref_root, "proj"), os.path.join(root, "proj"))
-                where = rng.choice(["aaa_bad.py", "good2_bad.py", "zzz_bad.py", "pkg/bad.py"]) if " KB" not in label else "good1_bad.py"   # big files: always with successors
-                with open(os.path.join(root, "proj", where), "wb") as f:
-                    f.write(data)
-                rc, so, se, secs = run_cli(["analyze", "--json", "--no-open", "proj"], root, limit + 120)
+            m = o["mixed"]
+            if m is not None:
+                where = pl["where"]
+                rc, se = m["rc"], m["se"]
                 hist["mixed_runs"] += 1
-                got = glob.glob(os.path.join(root, ".pyscn", "reports", "*.json"))
-                if rc is None or any(m in se for m in CRASH_MARKS) or rc not in (0, 1):
+                if rc is None or m["crash"] or rc not in (0, 1):
                     res.violation("C06: analysing the valid project with one extra file of kind `%s` at %s: %s" % (label, where, "no termination" if rc is None else "exit %s / crash: %s" % (rc, se[-200:])),
                                   dict(info, signature={"kind": "mixed-crash", "input": label}, where=where))
-                elif not got:
+                elif not m["report"]:
                     res.violation("C06: with one extra file of kind `%s` (%s) no report is written at all (exit %d): the bad file hides every other file: %s" % (label, where, rc, se[-200:]),
                                   dict(info, signature={"kind": "hides-all", "input": label}, where=where, files=good))
                 else:
-                    d = json.load(open(got[0]))
-                    parts = per_file(d, lambda p: not p.endswith("bad.py"))
+                    parts = m["parts"]
                     for sec in ("complexity", "dead_code", "cbo", "lcom", "clones"):
                         if parts[sec] != ref_parts[sec]:
                             miss = [x for x in ref_parts[sec] if x not in parts[sec]][:2]
@@ -452,8 +668,19 @@ def run(tier, seed, replay=None):
                             else:
                                 res.violation(msg, dict(info, signature=sig, where=where, files=good))
                             break
-                shutil.rmtree(root, ignore_errors=True)
-            shutil.rmtree(os.path.join(tmp, "a%d" % bi), ignore_errors=True)
+                    # the same clause in the project: the file that cannot be parsed is named in an error or warning of the full report (or on stderr)
+                    if bi in unparseable:
+                        if m["mention"]:
+                            hist["mixed_unparseable_and_reported"] += 1
+                        else:
+                            sig = {"kind": "unreported-bad-file", "select": "all", "mixed": True}
+                            k = C.classify(PID, sig)
+                            msg = "C06: `pyscn analyze --json` on the valid project plus %s, a file that cannot be parsed (kind `%s`; rejected by %s), reports that file neither as an error nor as a warning (report and stderr do not name it; exit %d)" % (
+                                where, label, "the tree-sitter Python grammar asked directly" if bi in ts_unparseable else "its own parser", rc)
+                            if k:
+                                res.known_finding(k, "(%s)" % msg[:250])
+                            else:
+                                res.violation(msg, dict(info, signature=sig, where=where, files=good, tree_sitter=ts_ans[bi]))
     finally:
         shutil.rmtree(tmp, ignore_errors=True)
     if not ps.ok and not any(fi for _, _, fi in res.violations):
@@ -464,8 +691,15 @@ def run(tier, seed, replay=None):
         "rule": "VALID shapes: the clause x statement matrix (22 clause positions incl. 2nd/3rd elif, loop-else, except/finally, match cases, async; 39 statement kinds incl. every import form and relative imports that reach the project root (marker file) and beyond, at depth 0 and depth 2; inside a function and at module level; only cells CPython compiles) analysed as one project with all analyses, bisected to one cell on failure; malformed stream: 144 clause-body defects (every compound-statement clause kind x {comment-only body, no body, blank body} x {inside a def, top level}) + 50 hand-picked shapes (empty, NUL, BOMs, UTF-16, invalid UTF-8, unterminated strings, broken blocks, CR/CRLF, nesting of parens/brackets/blocks/defs/"
                 "classes/try up to several thousand levels, chains of attributes/calls/operators/elif/decorators up to 20000 links, 60000-line function, 4000 functions) + byte-level "
                 "mutations of valid generated modules (truncate, flip, delete, insert token, duplicate span, shuffle lines, random bytes, block body replaced by a comment or nothing); each file alone under a random analysis selection and "
-                "output format, every second one also mixed into a project of 5 valid files at a random position (per-file results of the valid files must equal the reference run)",
-        "samples": [{"kind": l, "size": len(b), "head_hex": b[:48].hex()} for l, b in bad[:3] + bad[50:52]],
+                "output format, every second one also mixed into a project of 5 valid files at a random position (per-file results of the valid files must equal the reference run); "
+                "+ 68 deep-nesting inputs: 10 kinds of BALANCED nesting (list, paren, tuple, dict value, call argument, keyword argument, operand, subscript, lambda body, conditional) x 5 depths (30, 450, just below and "
+                "just above 1000 tree levels, 2600) with ONE local defect in the innermost operand (5 defects, 4 positions in the file rotated), the same nesting without the defect, 8 randomly mixed nestings of random depth; "
+                "'cannot be parsed' is decided by pyscn's parser gate AND by the tree-sitter Python grammar asked directly on the bytes (harness `tsparse`, no pyscn code on the path; union), for every input of the stream; "
+                "such a file must be named by an error/warning (JSON report or stderr) that a VALID file of the same name does not get as well (control runs), alone when the run exits 0 and in the mixed project; "
+                "scaling probes t(n) vs t(4n) per family (valid functions, statements, JS, unclosed brackets, random printable at 150/600 KiB; ONE if/elif chain of 10 000 / 40 000 clauses and the same branches as separate ifs "
+                "at 0.4/1.6 MB, the chain also against the separate ifs of the same size; one try with N except clauses, one match with N cases, one boolean expression with N operands at 0.4/1.6 MB; "
+                "an excess that is not a known finding is measured a second time and the smaller times count); the CLI invocations of the stream run %d at a time, a time-limit excess is re-measured with nothing else running" % JOBS,
+        "samples": [{"kind": l, "size": len(b), "head_hex": b[:48].hex()} for l, b in bad[:3] + bad[50:52] + [x for x in bad if x[0].startswith("deep nesting")][:2]],
         "traces_validated_against_impl": hist["mixed_runs"],
         "distribution": hist,
     })
